@@ -138,7 +138,20 @@ func (d *debouncer) add(f func()) {
 		d.timer.Stop()
 	}
 
-	d.timer = time.AfterFunc(d.duration, f)
+	// Once a timer has expired the goroutine running its function can no longer be stopped,
+	// and it may start any time later: it runs f only if its timer is still the current one,
+	// i.e. when neither a newer call nor a cancel came in between.
+	var t *time.Timer
+	t = time.AfterFunc(d.duration, func() {
+		d.mu.Lock()
+		current := d.timer == t
+		d.mu.Unlock()
+
+		if current {
+			f()
+		}
+	})
+	d.timer = t
 }
 
 // cancel the execution of a scheduled debounce function.
